@@ -483,6 +483,11 @@ impl Controller for Bbr {
         self.min_cwnd = calculate_min_window(self.current_mtu);
         self.init_cwnd = self.config.initial_window.max(self.min_cwnd);
         self.cwnd = self.cwnd.max(self.min_cwnd);
+        // While in recovery `window()` is also bounded by the recovery window, which must respect
+        // the new minimum as well (0 means "not yet initialized").
+        if self.recovery_window != 0 {
+            self.recovery_window = self.recovery_window.max(self.min_cwnd);
+        }
     }
 
     fn window(&self) -> u64 {
